@@ -440,7 +440,8 @@ class C04(Prop):
         try:
             nfile = 0
             for i in range(12 if tier == "quick" else 200):
-                spec, mv = TF.gen_class(rng, TF.CLASSES[i % len(TF.CLASSES)], tier) if i % 2 else TF.gen(rng, tier)
+                inside = [c for c in TF.CLASSES if not c.endswith("!")]        # known-finding / refusal regions run in `cases`
+                spec, mv = TF.gen_class(rng, inside[i % len(inside)], tier) if i % 2 else TF.gen(rng, tier)
                 try:
                     ti = TF.build(spec)
                     text = TF.dumps(ti, mv)
